@@ -87,6 +87,7 @@ class Engine:
         self.spec_funcs = {}
         self.auto_inline = False
         self.compress_info = {}
+        self.mask_cache = {}
         self.inv_funcs = {}
         self.trusted_facts = set()
         self.inlined = set()
@@ -413,6 +414,11 @@ class Engine:
         ao = st.heap[a.oid] if isinstance(a, Ref) else a
         bo = st.heap[b.oid] if isinstance(b, Ref) else b
         if isinstance(ao, ArrV) or isinstance(bo, ArrV):
+            if isinstance(op, ast.Div) and isinstance(ao, ArrV) and not isinstance(bo, (ArrV, ListV, SymListV)) and is_z3(to_num(bo)):
+                # array / scalar: one reciprocal, then a product per cell (equal over the reals; keeps summands free of division)
+                self.oblige('safe', 'div', st, ne(bo, 0))
+                inv = truediv(1.0, bo)
+                return self.elementwise(lambda x, y: mul(to_real(x), y), a, inv, st)
             return self.elementwise(lambda x, y: self.binop_scalar(op, x, y, st, numpy=True), a, b, st)
         if isinstance(ao, ListV) and isinstance(bo, ListV) and isinstance(op, ast.Add):
             return new_ref(st, ListV(ao.items + bo.items))
@@ -499,7 +505,20 @@ class Engine:
         else:
             shape, dt = bo.shape, dtype or self.join_dtype(self.scalar_dtype(ao), bo.dtype)
             at = lambda *i, ao=ao, bo=bo: f(ao, bo.at(*i))
-        return new_ref(st, ArrV(shape, at, dt))
+        res = new_ref(st, ArrV(shape, at, dt))
+        # same-mask propagation: an elementwise combination of arrays selected by one mask is the selection of the combination
+        ia = self.compress_info.get(a.oid) if isinstance(a, Ref) else None
+        ib = self.compress_info.get(b.oid) if isinstance(b, Ref) else None
+        pa = ia.get('pointwise') if ia else None
+        pb = ib.get('pointwise') if ib else None
+        if (ia or ib) and (not isinstance(a, Ref) or ia) and (not isinstance(b, Ref) or ib) and (ia is None or ib is None or ia['mask'] is ib['mask']) \
+                and (ia is None or callable(pa)) and (ib is None or callable(pb)) and 'phi' in (ia or ib):
+            base = ia or ib
+            fa = pa if ia else (lambda i, ao=ao: ao)
+            fb = pb if ib else (lambda i, bo=bo: bo)
+            self.compress_info[res.oid] = {'src': ArrV(base['src'].shape, lambda i: f(fa(i), fb(i)), dt), 'mask': base['mask'], 'phi': base['phi'],
+                                           'rank': base['rank'], 'cnt': base['cnt'], 'pointwise': lambda i: f(fa(i), fb(i))}
+        return res
 
     @staticmethod
     def scalar_dtype(v):
